@@ -442,7 +442,13 @@ def r4(ctx):
               "_keep.remove (when initialized) dominates enqueue_req", path=p and g.fmt_path(p))
     # ValueError (already reaped) -> do not enqueue
     hs = [h for h in walk_own(f.node) if isinstance(h, ast.ExceptHandler) and h.type is not None and "ValueError" in norm(h.type)]
-    okk = bool(hs) and all(h.body and isinstance(h.body[-1], ast.Return) for h in hs)
+    # (evaluated: a kept-alive connection that is no longer in _keep -- the reaper took it -- is not enqueued, however the
+    # way out is written: a return in the handler, a flag, try/except/else)
+    from ..absint import Explorer as _Ex, Inst as _Inst
+    cn = f.params[1]
+    outs_ = _Ex(f, call_trace={".enqueue_req": lambda ex, c, env: "enqueued", TW + ".enqueue_req": lambda ex, c, env: "enqueued"}, tracked=["self._keep"]).run(
+        g.entry, {cn: _Inst(TW.rsplit(".", 1)[0] + ".TConn", initialized=True), cn + ".initialized": True, "self._keep": ()})
+    okk = bool(hs) and bool(outs_) and not any(v == "enqueued" for o in outs_ for q_, v in o.env.get(_Ex.TRACE, ()))
     ctx.check("C13.R4", okk, key(f, "lost-race-returns"), site(f), "when the reaper already removed the connection (ValueError) the request is still enqueued on a closed connection", "return on ValueError")
     # evaluated on a kept-alive connection (initialized, queued in _keep): whatever on_client_socket_readable does with it --
     # hand it to a thread, or release it on the spot -- the connection has left _keep first; a connection that is closed while
